@@ -10,9 +10,9 @@ use serde::{Deserialize, Serialize};
 pub struct C18;
 
 #[derive(Clone, Copy, Debug, PartialEq, Eq, Hash, Serialize, Deserialize)]
-pub enum CK { U8, U64, F64, Str, Bool }
+pub enum CK { U8, U64, F64, Str, Bool, I64, F32, R64 }
 impl CK {
-  fn name(&self) -> &'static str { match self { CK::U8 => "u8", CK::U64 => "u64", CK::F64 => "f64", CK::Str => "string", CK::Bool => "bool" } }
+  fn name(&self) -> &'static str { match self { CK::U8 => "u8", CK::U64 => "u64", CK::F64 => "f64", CK::Str => "string", CK::Bool => "bool", CK::I64 => "i64", CK::F32 => "f32", CK::R64 => "r64" } }
   /// cell text in a table literal and reference value for key index v (0..3)
   fn cell(&self, v: u8) -> (String, RVal) {
     match self {
@@ -21,6 +21,9 @@ impl CK {
       CK::F64 => (format!("{}.5", v), RVal::S(f64b(v as f64 + 0.5))),
       CK::Str => (format!("\"{}\"", ["x", "y", "zz"][v as usize % 3]), RVal::S(Sc::Str(["x", "y", "zz"][v as usize % 3].to_string()))),
       CK::Bool => (format!("{}", v % 2 == 0), RVal::S(Sc::Bool(v % 2 == 0))),
+      CK::I64 => (format!("{}", [-1i64, 0, 7][v as usize % 3]), RVal::S(Sc::I(64, [-1i128, 0, 7][v as usize % 3]))),
+      CK::F32 => (format!("{}", ["1.5", "-2.25", "0.0"][v as usize % 3]), RVal::S(f32b([1.5f32, -2.25, 0.0][v as usize % 3]))),
+      CK::R64 => (format!("{}", ["1/2", "2/3", "3/4"][v as usize % 3]), RVal::S(Sc::R([1, 2, 3][v as usize % 3], [2, 3, 4][v as usize % 3]))),
     }
   }
 }
@@ -37,28 +40,38 @@ impl Join {
 pub struct Tbl { pub cols: Vec<(String, CK)>, pub rows: Vec<Vec<u8>> }
 
 #[derive(Clone, Debug, Serialize, Deserialize)]
-pub enum Sel { Row(u8), Rows(Vec<u8>), Mask(Vec<bool>), Col(u8) }
+pub enum Sel { Row(u8), Rows(Vec<u8>), Mask(Vec<bool>), Col(u8), Range(u8, u8, bool), RowsVar(Vec<u8>), MaskVar(Vec<bool>) }
 
 #[derive(Clone, Debug, Serialize, Deserialize)]
 pub enum Case {
   Join { a: Tbl, b: Tbl, op: Join, word: bool },
   Select { t: Tbl, sel: Sel },
+  /// two-stage join: J = a op1 b, then J op2 c (style bit 0: J through a variable `tj`; bit 1: J is the right operand)
+  Chain { a: Tbl, b: Tbl, c: Tbl, op1: Join, op2: Join, w1: bool, w2: bool, style: u8 },
+  /// row selection on the result of a join (through the variable `tj`)
+  SelectJoin { a: Tbl, b: Tbl, op: Join, sel: Sel },
 }
 
-fn ck_s() -> BoxedStrategy<CK> { pick(vec![CK::U8, CK::U64, CK::F64, CK::Str, CK::Bool]) }
+fn ck_s() -> BoxedStrategy<CK> { pick(vec![CK::U8, CK::U64, CK::F64, CK::Str, CK::Bool, CK::I64, CK::F32, CK::R64]) }
 
 fn pair_s() -> BoxedStrategy<(Tbl, Tbl)> {
   // shared columns (0-2) with common kinds, then own columns (A: 0-2, B: 0-2), at least one column each, at most 3
-  (proptest::collection::vec(ck_s(), 0..=2), proptest::collection::vec(ck_s(), 0..=2), proptest::collection::vec(ck_s(), 0..=2), 1usize..=5, 1usize..=5, any::<bool>())
-    .prop_flat_map(|(shared, owna, ownb, ra, rb, shared_last)| {
+  (proptest::collection::vec(ck_s(), 0..=2), proptest::collection::vec(ck_s(), 0..=2), proptest::collection::vec(ck_s(), 0..=2), 1usize..=5, 1usize..=5, 0u8..4)
+    .prop_flat_map(|(shared, owna, ownb, ra, rb, arr)| {
       let mut ca: Vec<(String, CK)> = vec![]; let mut cb: Vec<(String, CK)> = vec![];
       let sh: Vec<(String, CK)> = shared.iter().enumerate().map(|(i, k)| (["id", "key"][i].to_string(), *k)).collect();
       let oa: Vec<(String, CK)> = owna.iter().enumerate().map(|(i, k)| (["xa", "ya"][i].to_string(), *k)).collect();
       let ob: Vec<(String, CK)> = ownb.iter().enumerate().map(|(i, k)| (["xb", "yb"][i].to_string(), *k)).collect();
-      if shared_last { ca.extend(oa.clone()); ca.extend(sh.clone()); cb.extend(sh.clone()); cb.extend(ob.clone()); } else { ca.extend(sh.clone()); ca.extend(oa.clone()); cb.extend(ob.clone()); cb.extend(sh.clone()); }
+      match arr {
+        0 => { ca.extend(sh.clone()); ca.extend(oa.clone()); cb.extend(ob.clone()); cb.extend(sh.clone()); }
+        1 => { ca.extend(oa.clone()); ca.extend(sh.clone()); cb.extend(sh.clone()); cb.extend(ob.clone()); }
+        // interleaved: an own column between / around the shared ones, shared columns in opposite orders on the two sides
+        2 => { let mut o = oa.clone().into_iter(); let mut q = ob.clone().into_iter(); if let Some(x) = o.next() { ca.push(x); } ca.extend(sh.clone()); ca.extend(o); cb.extend(sh.iter().rev().cloned()); cb.extend(q.by_ref()); }
+        _ => { let mut o = oa.clone().into_iter(); let mut q = ob.clone().into_iter(); let mut h = sh.clone().into_iter(); if let Some(x) = h.next() { ca.push(x.clone()); } ca.extend(o.by_ref()); ca.extend(h); if let Some(x) = q.next() { cb.push(x); } cb.extend(sh.iter().rev().cloned()); cb.extend(q); }
+      }
       if ca.is_empty() { ca.push(("xa".into(), CK::U64)); }
       if cb.is_empty() { cb.push(("xb".into(), CK::U64)); }
-      ca.truncate(3); cb.truncate(3);
+      ca.truncate(4); cb.truncate(4);
       let (na, nb) = (ca.len(), cb.len());
       (proptest::collection::vec(proptest::collection::vec(0u8..3, na), ra), proptest::collection::vec(proptest::collection::vec(0u8..3, nb), rb))
         .prop_map(move |(rowsa, rowsb)| (Tbl { cols: ca.clone(), rows: rowsa }, Tbl { cols: cb.clone(), rows: rowsb }))
@@ -68,7 +81,7 @@ fn pair_s() -> BoxedStrategy<(Tbl, Tbl)> {
 impl Prop for C18 {
   type Case = Case;
   const ID: &'static str = "C18";
-  fn budget(t: Tier) -> u32 { t.pick(6_000, 80_000) }
+  fn budget(t: Tier) -> u32 { t.pick(10_000, 100_000) }
   fn strategy(_t: Tier, _k: &Known) -> BoxedStrategy<Case> {
     let join = (pair_s(), pick(JOINS.to_vec()), proptest::bool::weighted(0.3)).prop_map(|((a, b), op, word)| Case::Join { a, b, op, word }).boxed();
     let sel = pair_s().prop_flat_map(|(t, _)| {
@@ -81,19 +94,48 @@ impl Prop for C18 {
       ];
       s.prop_map(move |sel| Case::Select { t: t.clone(), sel })
     }).boxed();
-    prop_oneof![6 => join, 1 => sel].boxed()
+    // third table of a chain: 1-3 columns drawn from the names (and kinds) of a and b plus two own names
+    let chain = (pair_s(), proptest::collection::vec(0usize..64, 1..=3), ck_s(), ck_s(), 1usize..=4, pick(JOINS.to_vec()), pick(JOINS.to_vec()), proptest::bool::weighted(0.25), proptest::bool::weighted(0.25), 0u8..4)
+      .prop_flat_map(|((a, b), ixs, k1, k2, rc, op1, op2, w1, w2, style)| {
+        let mut pool: Vec<(String, CK)> = vec![];
+        for c in a.cols.iter().chain(b.cols.iter()) { if !pool.iter().any(|(n, _)| *n == c.0) { pool.push(c.clone()); } }
+        pool.push(("xc".into(), k1)); pool.push(("yc".into(), k2));
+        let mut cc: Vec<(String, CK)> = vec![];
+        for i in ixs { let e = pool[i * pool.len() >> 6].clone(); if !cc.iter().any(|(n, _)| *n == e.0) { cc.push(e); } }
+        let nc = cc.len();
+        proptest::collection::vec(proptest::collection::vec(0u8..3, nc), rc).prop_map(move |rows| Case::Chain { a: a.clone(), b: b.clone(), c: Tbl { cols: cc.clone(), rows }, op1, op2, w1, w2, style })
+      }).boxed();
+    let sel2 = pair_s().prop_flat_map(|(t, _)| {
+      let n = t.rows.len() as u8;
+      let s = prop_oneof![
+        (1..=n, 0..=n, any::<bool>()).prop_map(|(lo, len, incl)| Sel::Range(lo, lo + len, incl)),
+        proptest::collection::vec(1..=n, 2..=5).prop_map(Sel::RowsVar),
+        proptest::collection::vec(any::<bool>(), n as usize).prop_map(Sel::MaskVar),
+      ];
+      s.prop_map(move |sel| Case::Select { t: t.clone(), sel })
+    }).boxed();
+    let seljoin = (pair_s(), pick(JOINS.to_vec()), proptest::collection::vec(0u8..32, 1..=4), proptest::collection::vec(any::<bool>(), 25), 0u8..3)
+      .prop_map(|((a, b), op, ix, mask, form)| Case::SelectJoin { a, b, op, sel: match form { 0 => Sel::Row(ix[0]), 1 => Sel::Rows(ix), _ => Sel::Mask(mask) } }).boxed();
+    prop_oneof![12 => join, 2 => sel, 6 => chain, 2 => sel2, 2 => seljoin].boxed()
   }
   fn rule() -> &'static str {
-    "case = two table literals (1-3 columns each, 0-2 shared column names with a common kind, placed first or last, 1-5 rows, cell values \
-     from a 3-value domain per kind so duplicates and many-to-many matches are common, kinds u8/u64/f64/string/bool) and one of the six \
-     join operators in symbol or word form; or a row/column selection on one table. Oracle: reference relational algebra, result compared \
-     as a multiset of rows over the union of the columns, with column kinds (optional where the operator can leave a hole). Non-trivial = \
-     a key occurs ≥2 times on one side, or a side has an unmatched row, or there are 0 or 2 shared columns; distinct key = (op, #shared, \
-     max multiplicity per side, unmatched-left, unmatched-right, form)."
+    "case = two table literals (1-4 columns each, 0-2 shared column names with a common kind, placed first, last or interleaved with the own \
+     columns and in opposite orders on the two sides, 1-5 rows, cell values from a 3-value domain per kind so duplicates and many-to-many \
+     matches are common, kinds u8/u64/i64/f32/f64/r64/string/bool) and one of the six join operators in symbol or word form; or a two-stage \
+     chain (ta op1 tb) op2 tc with the intermediate result inline or through a variable, on the left or the right of op2, the third table \
+     sharing columns with either operand (so holes made by op1 are join keys or passed-through cells of op2); or a row/column selection \
+     (index, index vector literal or variable, mask literal or variable, exclusive/inclusive range) on a table literal or on a join result. \
+     Oracle: reference relational algebra (an empty cell matches nothing), result compared as a multiset of rows over the union of the \
+     columns, with column kinds (optional where the operator can leave a hole). Non-trivial = a key occurs >=2 times on one side, or a side \
+     has an unmatched row, or there are 0 or 2 shared columns, or a chain with non-empty intermediate and final result, or a non-empty \
+     selection on a join result; distinct key = (op, #shared, max multiplicity per side, unmatched-left, unmatched-right, form) / (op1, op2, \
+     style, intermediate has holes, #shared in stage 2) / (op, selection form, rows, selected, holes)."
   }
   fn assumptions() -> Vec<String> {
     vec!["a column the operator can leave a hole in must be optional when a hole actually occurs; when no row is unmatched both `k` and `k?` are accepted".into(),
-         "result row order is not constrained (multiset comparison); row selection is compared in order".into()]
+         "result row order is not constrained (multiset comparison); row selection is compared in order".into(),
+         "in a chain, a hole inherited from the intermediate result in a column the second operator cannot itself leave empty may be declared with either spelling of the kind (k or k?): the statement speaks about the columns the operator makes optional".into(),
+         "a chain whose expected result has no rows only demands that no row is invented; a selection that addresses a row beyond the last only demands that no table with that many rows is returned".into()]
   }
   fn describe(c: &Case) -> String { render(c).join("; ") }
   fn check(c: &Case, _cx: &Cx) -> Verdict { check(c) }
@@ -113,7 +155,92 @@ fn render(c: &Case) -> Vec<String> {
       Sel::Rows(v) => format!("ta[[{}]]", v.iter().map(|x| x.to_string()).collect::<Vec<_>>().join(" ")),
       Sel::Mask(m) => format!("ta[[{}]]", m.iter().map(|x| x.to_string()).collect::<Vec<_>>().join(" ")),
       Sel::Col(ci) => format!("ta.{}", t.cols[*ci as usize].0),
-    }],
+      Sel::Range(lo, hi, incl) => format!("ta[{}{}{}]", lo, if *incl { "..=" } else { ".." }, hi),
+      Sel::RowsVar(v) => format!("ix := [{}]; ta[ix]", v.iter().map(|x| x.to_string()).collect::<Vec<_>>().join(" ")),
+      Sel::MaskVar(m) => format!("ix := [{}]; ta[ix]", m.iter().map(|x| x.to_string()).collect::<Vec<_>>().join(" ")),
+    }].into_iter().flat_map(|l| l.split("; ").map(|x| x.to_string()).collect::<Vec<_>>()).collect(),
+    Case::Chain { a, b, c, op1, op2, w1, w2, style } => {
+      let j = if *w1 { format!("{}(ta, tb)", op1.word()) } else { format!("ta {} tb", op1.sym()) };
+      let mut st = vec![format!("ta := {}", tbl_text(a)), format!("tb := {}", tbl_text(b)), format!("tc := {}", tbl_text(c))];
+      let jx = if style & 1 == 0 { st.push(format!("tj := {}", j)); "tj".to_string() } else if *w1 { j } else { format!("({})", j) };
+      let (l, r) = if style & 2 == 0 { (jx, "tc".to_string()) } else { ("tc".to_string(), jx) };
+      st.push(if *w2 { format!("{}({}, {})", op2.word(), l, r) } else { format!("{} {} {}", l, op2.sym(), r) });
+      st
+    }
+    Case::SelectJoin { a, b, op, .. } => vec![format!("ta := {}", tbl_text(a)), format!("tb := {}", tbl_text(b)), format!("tj := ta {} tb", op.sym())],
+  }
+}
+
+/// reference table: names, base kinds, which columns may be optional, rows
+#[derive(Clone, Debug)]
+struct RT { names: Vec<String>, kinds: Vec<String>, holeable: Vec<bool>, /** columns in which the last operator itself can leave a hole */ must: Vec<bool>, rows: Vec<Vec<RVal>> }
+fn rt_of(t: &Tbl) -> RT {
+  RT { names: t.cols.iter().map(|c| c.0.clone()).collect(), kinds: t.cols.iter().map(|c| c.1.name().to_string()).collect(), holeable: vec![false; t.cols.len()], must: vec![false; t.cols.len()],
+       rows: (0..t.rows.len()).map(|r| (0..t.cols.len()).map(|ci| cell(t, r, ci)).collect()).collect() }
+}
+/// relational-algebra join on all commonly named columns (an empty cell matches nothing); columns = A's, then B's own
+fn join_ref(a: &RT, b: &RT, op: Join) -> RT {
+  let empty = RVal::S(Sc::Empty);
+  let shared: Vec<(usize, usize)> = a.names.iter().enumerate().filter_map(|(i, n)| b.names.iter().position(|m| m == n).map(|j| (i, j))).collect();
+  let b_only: Vec<usize> = (0..b.names.len()).filter(|j| !shared.iter().any(|(_, sj)| sj == j)).collect();
+  let matches = |ra: &Vec<RVal>, rb: &Vec<RVal>| shared.iter().all(|(i, j)| ra[*i] == rb[*j] && ra[*i] != empty);
+  let semi = matches!(op, Join::Semi | Join::Anti);
+  let mut rows: Vec<Vec<RVal>> = vec![];
+  let mut matched_b = vec![false; b.rows.len()];
+  for ra in &a.rows {
+    let ms: Vec<usize> = (0..b.rows.len()).filter(|rb| matches(ra, &b.rows[*rb])).collect();
+    for rb in &ms { matched_b[*rb] = true; }
+    match op {
+      Join::Inner | Join::Left | Join::Right | Join::Full => {
+        for rb in &ms { let mut r = ra.clone(); for j in &b_only { r.push(b.rows[*rb][*j].clone()); } rows.push(r); }
+        if ms.is_empty() && matches!(op, Join::Left | Join::Full) { let mut r = ra.clone(); for _ in &b_only { r.push(empty.clone()); } rows.push(r); }
+      }
+      Join::Semi => if !ms.is_empty() { rows.push(ra.clone()); },
+      Join::Anti => if ms.is_empty() { rows.push(ra.clone()); },
+    }
+  }
+  if matches!(op, Join::Right | Join::Full) {
+    for (rb, row) in b.rows.iter().enumerate() { if !matched_b[rb] {
+      let mut r: Vec<RVal> = (0..a.names.len()).map(|i| match shared.iter().find(|(si, _)| *si == i) { Some((_, j)) => row[*j].clone(), None => empty.clone() }).collect();
+      for j in &b_only { r.push(row[*j].clone()); }
+      rows.push(r);
+    } }
+  }
+  let mut names = a.names.clone(); let mut kinds = a.kinds.clone();
+  let mut holeable: Vec<bool> = (0..a.names.len()).map(|i| match shared.iter().find(|(si, _)| *si == i) {
+    Some((_, j)) => a.holeable[i] || (!semi && b.holeable[*j]),
+    None => a.holeable[i] || matches!(op, Join::Right | Join::Full) }).collect();
+  let mut must: Vec<bool> = (0..a.names.len()).map(|i| !shared.iter().any(|(si, _)| *si == i) && matches!(op, Join::Right | Join::Full)).collect();
+  if !semi { for j in &b_only { names.push(b.names[*j].clone()); kinds.push(b.kinds[*j].clone()); holeable.push(b.holeable[*j] || matches!(op, Join::Left | Join::Full)); must.push(matches!(op, Join::Left | Join::Full)); } }
+  RT { names, kinds, holeable, must, rows }
+}
+
+/// compares an observed table with the reference table: column set, rows as a multiset, column kinds
+fn cmp_table(v: &mut Verdict, text: &str, out: &Outcome, want: &RT, tag: &str, cause: &str) {
+  let empty = RVal::S(Sc::Empty);
+  match out {
+    Outcome::Ok(RVal::Table { rows: nr, cols }) => {
+      let got_names: Vec<String> = cols.iter().map(|(n, _, _)| n.clone()).collect();
+      let mut gs = got_names.clone(); gs.sort(); let mut ws = want.names.clone(); ws.sort();
+      if gs != ws { v.fail(format!("C18|columns|{}|{}", tag, cause), format!("`{}` has columns {:?} expected {:?}", text, got_names, want.names)); return; }
+      if cols.iter().any(|(_, _, cells)| cells.len() != *nr) { v.fail(format!("C18|ragged-result|{}", tag), format!("`{}` gave {}", text, out.show())); return; }
+      let idx: Vec<usize> = want.names.iter().map(|n| got_names.iter().position(|g| g == n).unwrap()).collect();
+      let mut got_rows: Vec<Vec<RVal>> = (0..*nr).map(|r| idx.iter().map(|ci| cols[*ci].2[r].clone()).collect()).collect();
+      let mut want_rows = want.rows.clone();
+      got_rows.sort(); want_rows.sort();
+      if got_rows != want_rows { v.fail(format!("C18|rows|{}|{}", tag, cause), format!("`{}` gave {} row(s) {} expected {} row(s) {}", text, nr, show_rows(&got_rows), want_rows.len(), show_rows(&want_rows))); return; }
+      for (k, nm) in want.names.iter().enumerate() {
+        let (_, gk, cells) = &cols[idx[k]];
+        let base = &want.kinds[k];
+        let has_hole = cells.iter().any(|c| *c == empty);
+        // a column the operator itself can leave a hole in must be optional when it holds one; a hole inherited from an operand that was
+        // itself a join result (a shared or passed-through column) is outside the statement: both spellings of the kind are accepted
+        let ok = if has_hole && want.must[k] { *gk == format!("{}?", base) } else if want.holeable[k] { *gk == *base || *gk == format!("{}?", base) } else { *gk == *base };
+        if !ok { v.fail(format!("C18|column-kind|{}|{}", tag, if want.holeable[k] { "holeable" } else { "fixed" }), format!("`{}`: column {} has kind {} (base {}, holes: {})", text, nm, gk, base, has_hole)); return; }
+      }
+    }
+    Outcome::Ok(other) => v.fail(format!("C18|not-a-table|{}", tag), format!("`{}` gave {}", text, other.show())),
+    other => v.fail(format!("C18|join-rejected|{}|{}|{}", tag, cause, other.class()), format!("`{}` gave {}", text, other.show())),
   }
 }
 
@@ -123,7 +250,95 @@ fn tbl_rval(t: &Tbl) -> RVal {
   RVal::Table { rows: t.rows.len(), cols: t.cols.iter().enumerate().map(|(ci, (n, k))| (n.clone(), k.name().to_string(), (0..t.rows.len()).map(|r| cell(t, r, ci)).collect())).collect() }
 }
 
+fn check_chain(c: &Case) -> Verdict {
+  let Case::Chain { a, b, c: tc, op1, op2, style, .. } = c else { unreachable!() };
+  let mut v = Verdict::new();
+  let st = render(c);
+  let mut sess = Session::new();
+  for s in &st[..3] { match sess.run(s) { Outcome::Ok(_) => {} o => { v.harness(format!("table definition `{}` gave {}", s, o.show())); return v; } } }
+  let snap = sess.snapshot();
+  if snap.get("ta") != Some(&tbl_rval(a)) || snap.get("tb") != Some(&tbl_rval(b)) || snap.get("tc") != Some(&tbl_rval(tc)) { v.harness(format!("table literal reads back differently: {}", st[..3].join("; "))); return v; }
+  let text = st.join("; ");
+  let j = join_ref(&rt_of(a), &rt_of(b), *op1);
+  v.label(format!("chain:{:?}>{:?}", op1, op2));
+  v.label(format!("chain-style:{}", style));
+  if style & 1 == 0 {
+    let o = sess.run(&st[3]);
+    if let Outcome::NotCode = o { v.harness(format!("`{}` parsed as prose", st[3])); return v; }
+    if let Outcome::Panic(m) = &o { v.fail("C18|panic-escaped", m.clone()); return v; }
+    if !o.is_ok() { v.fail(format!("C18|join-rejected|chain-stage1|{:?}|{}", op1, o.class()), format!("`{}` gave {}", st[..4].join("; "), o.show())); return v; }
+    match sess.snapshot().get("tj") { Some(t) => cmp_table(&mut v, &st[..4].join("; "), &Outcome::Ok(t.clone()), &j, &format!("chain-stage1|{:?}", op1), "variable"), None => v.fail("C18|chain-stage1|undefined", format!("`{}` left tj undefined", st[..4].join("; "))) }
+    if v.failed() { return v; }
+  }
+  let out = sess.run(&st[st.len() - 1]);
+  if let Outcome::NotCode = out { v.harness(format!("`{}` parsed as prose", st[st.len() - 1])); return v; }
+  if let Outcome::Panic(m) = &out { v.fail("C18|panic-escaped", m.clone()); return v; }
+  let c_rt = rt_of(tc);
+  let want = if style & 2 == 0 { join_ref(&j, &c_rt, *op2) } else { join_ref(&c_rt, &j, *op2) };
+  let empty = RVal::S(Sc::Empty);
+  let j_hole = j.rows.iter().any(|r| r.iter().any(|x| *x == empty));
+  let shared2 = j.names.iter().filter(|n| c_rt.names.contains(n)).count();
+  if j.rows.is_empty() { v.label("chain:empty-intermediate"); }
+  if want.rows.is_empty() {
+    // an empty result: only "no rows invented" is demanded (how an empty table is represented is not the property's subject)
+    v.label("chain:empty-result");
+    match &out { Outcome::Ok(RVal::Table { rows: nr, .. }) if *nr > 0 => v.fail(format!("C18|rows|chain|{:?}|empty-expected", op2), format!("`{}` gave {} expected no rows", text, out.show())), _ => {} }
+    return v;
+  }
+  if j.rows.is_empty() {
+    // J has no rows: the stage-2 result consists of c's rows alone; accepted or rejected, but never wrong rows
+    if let Outcome::Ok(RVal::Table { .. }) = &out { cmp_table(&mut v, &text, &out, &want, &format!("chain|{:?}", op2), "empty-intermediate"); }
+    return v;
+  }
+  v.key = Some(format!("chain|{:?}|{:?}|{}|{}|{}", op1, op2, style, j_hole, shared2.min(2)));
+  cmp_table(&mut v, &text, &out, &want, &format!("chain|{:?}", op2), if j_hole { "intermediate-has-holes" } else { "general" });
+  v
+}
+
+fn check_seljoin(c: &Case) -> Verdict {
+  let Case::SelectJoin { a, b, op, sel } = c else { unreachable!() };
+  let mut v = Verdict::new();
+  let st = render(c);
+  let mut sess = Session::new();
+  for s in &st[..2] { match sess.run(s) { Outcome::Ok(_) => {} o => { v.harness(format!("table definition `{}` gave {}", s, o.show())); return v; } } }
+  let o = sess.run(&st[2]);
+  if let Outcome::Panic(m) = &o { v.fail("C18|panic-escaped", m.clone()); return v; }
+  if !o.is_ok() { v.fail(format!("C18|join-rejected|seljoin|{:?}|{}", op, o.class()), format!("`{}` gave {}", st.join("; "), o.show())); return v; }
+  // the join itself is judged by the Join cases; here the observed table tj is the subject of the selection
+  let Some(RVal::Table { rows: nr, cols }) = sess.snapshot().get("tj").cloned() else { v.label("seljoin:not-a-table"); return v; };
+  v.label("class:select-on-join");
+  if nr == 0 { v.label("seljoin:empty"); return v; }
+  let rows: Vec<usize> = match sel { Sel::Row(i) => vec![*i as usize * nr >> 5], Sel::Rows(r) => r.iter().map(|x| *x as usize * nr >> 5).collect(), Sel::Mask(m) => m.iter().take(nr).enumerate().filter(|(_, f)| **f).map(|(i, _)| i).collect(), _ => vec![] };
+  let (form, stmt) = match sel {
+    Sel::Row(_) => ("row", format!("tj[{}]", rows[0] + 1)),
+    Sel::Rows(_) => ("rows", format!("tj[[{}]]", rows.iter().map(|x| (x + 1).to_string()).collect::<Vec<_>>().join(" "))),
+    Sel::Mask(m) => ("mask", format!("tj[[{}]]", m.iter().take(nr).map(|x| x.to_string()).collect::<Vec<_>>().join(" "))),
+    _ => { v.discard("selection form not used on joins"); return v; } };
+  let text = format!("{}; {}", st.join("; "), stmt);
+  let out = sess.run(&stmt);
+  if let Outcome::NotCode = out { v.harness(format!("`{}` parsed as prose", stmt)); return v; }
+  if let Outcome::Panic(m) = &out { v.fail("C18|panic-escaped", m.clone()); return v; }
+  if rows.is_empty() { v.label("empty-selection"); return v; }
+  let holes = cols.iter().any(|(_, _, c)| c.iter().any(|x| *x == RVal::S(Sc::Empty)));
+  v.key = Some(format!("select-on-join|{:?}|{}|{}|{}|{}", op, form, nr.min(4), rows.len(), holes));
+  match (&out, sel) {
+    (Outcome::Ok(RVal::Record(fields)), Sel::Row(_)) => {
+      // a record of the row's cells; the field kind may be the column kind with or without `?`
+      let ok = fields.len() == cols.len() && fields.iter().zip(&cols).all(|((fnm, fk, fv), (cn, ck, cells))| fnm == cn && (fk == ck || format!("{}?", fk) == *ck || *fk == format!("{}?", ck)) && *fv == cells[rows[0]]);
+      if !ok { v.fail("C18|select-row-wrong|on-join", format!("`{}` gave {} expected row {} of {}", text, out.show(), rows[0] + 1, RVal::Table { rows: nr, cols: cols.clone() }.show())); }
+    }
+    (Outcome::Ok(RVal::Table { rows: gr, cols: gc }), Sel::Rows(_) | Sel::Mask(_)) => {
+      let want: Vec<(String, String, Vec<RVal>)> = cols.iter().map(|(n, k, cells)| (n.clone(), k.clone(), rows.iter().map(|r| cells[*r].clone()).collect())).collect();
+      if *gr != rows.len() || *gc != want { v.fail(format!("C18|select-{}-wrong|on-join", form), format!("`{}` gave {} expected rows {:?} in order", text, out.show(), rows.iter().map(|r| r + 1).collect::<Vec<_>>())); }
+    }
+    (Outcome::Ok(other), _) => v.fail(format!("C18|select-{}-wrong-shape|on-join", form), format!("`{}` gave {}", text, other.show())),
+    (other, _) => { if matches!(sel, Sel::Mask(_)) && nr == 1 || matches!(sel, Sel::Rows(_)) && rows.len() == 1 { v.fail(format!("C18|single-element-index-rejected|{}", form), format!("`{}` gave {}", text, other.show())); } else { v.fail(format!("C18|select-{}-rejected|on-join|{}", form, other.class()), format!("`{}` gave {}", text, other.show())); } }
+  }
+  v
+}
+
 fn check(c: &Case) -> Verdict {
+  match c { Case::Chain { .. } => return check_chain(c), Case::SelectJoin { .. } => return check_seljoin(c), _ => {} }
   let mut v = Verdict::new();
   let st = render(c);
   let mut sess = Session::new();
@@ -134,6 +349,7 @@ fn check(c: &Case) -> Verdict {
   match c {
     Case::Join { a, b, .. } => { if snap.get("ta") != Some(&tbl_rval(a)) || snap.get("tb") != Some(&tbl_rval(b)) { v.harness(format!("table literal reads back differently: {:?}", snap.get("ta").map(|x| x.show()))); return v; } }
     Case::Select { t, .. } => { if snap.get("ta") != Some(&tbl_rval(t)) { v.harness(format!("table literal reads back differently: {:?}", snap.get("ta").map(|x| x.show()))); return v; } }
+    _ => unreachable!(),
   }
   let out = sess.run(&st[n - 1]);
   if let Outcome::NotCode = out { v.harness(format!("`{}` parsed as prose", st[n - 1])); return v; }
@@ -142,15 +358,22 @@ fn check(c: &Case) -> Verdict {
   match c {
     Case::Select { t, sel } => {
       v.label("class:select");
-      let rows: Vec<usize> = match sel { Sel::Row(i) => vec![*i as usize - 1], Sel::Rows(r) => r.iter().map(|x| *x as usize - 1).collect(), Sel::Mask(m) => m.iter().enumerate().filter(|(_, f)| **f).map(|(i, _)| i).collect(), Sel::Col(_) => vec![] };
-      let form = match sel { Sel::Row(_) => "row", Sel::Rows(_) => "rows", Sel::Mask(_) => "mask", Sel::Col(_) => "col" };
+      let rows: Vec<usize> = match sel { Sel::Row(i) => vec![*i as usize - 1], Sel::Rows(r) | Sel::RowsVar(r) => r.iter().map(|x| *x as usize - 1).collect(), Sel::Mask(m) | Sel::MaskVar(m) => m.iter().enumerate().filter(|(_, f)| **f).map(|(i, _)| i).collect(), Sel::Col(_) => vec![],
+        Sel::Range(lo, hi, incl) => (*lo as usize..(*hi as usize + *incl as usize)).map(|x| x - 1).collect() };
+      let form = match sel { Sel::Row(_) => "row", Sel::Rows(_) => "rows", Sel::Mask(_) => "mask", Sel::Col(_) => "col", Sel::Range(_, _, true) => "range-incl", Sel::Range(..) => "range-excl", Sel::RowsVar(_) => "rows-var", Sel::MaskVar(_) => "mask-var" };
+      if rows.iter().any(|r| *r >= t.rows.len()) {
+        // a range that runs past the last row addresses rows that do not exist: a value holding such a row would be invented
+        v.label("select:out-of-range");
+        if let Outcome::Ok(RVal::Table { rows: nr, .. }) = &out { if *nr >= rows.len() { v.fail(format!("C18|select-{}-out-of-range-accepted", form), format!("`{}` gave {}", text, out.show())); } }
+        return v;
+      }
       v.key = Some(format!("select|{}|{}x{}|{}", form, t.rows.len(), t.cols.len(), rows.len()));
       match (&out, sel) {
         (Outcome::Ok(RVal::Record(fields)), Sel::Row(i)) => {
           let want: Vec<(String, String, RVal)> = t.cols.iter().enumerate().map(|(ci, (nm, k))| (nm.clone(), k.name().to_string(), cell(t, *i as usize - 1, ci))).collect();
           if *fields != want { v.fail("C18|select-row-wrong", format!("`{}` gave {} expected row {}", text, out.show(), i)); }
         }
-        (Outcome::Ok(RVal::Table { rows: nr, cols }), Sel::Rows(_) | Sel::Mask(_)) => {
+        (Outcome::Ok(RVal::Table { rows: nr, cols }), Sel::Rows(_) | Sel::Mask(_) | Sel::Range(..) | Sel::RowsVar(_) | Sel::MaskVar(_)) => {
           if rows.is_empty() { v.label("empty-selection"); return v; }
           let want: Vec<(String, String, Vec<RVal>)> = t.cols.iter().enumerate().map(|(ci, (nm, k))| (nm.clone(), k.name().to_string(), rows.iter().map(|r| cell(t, *r, ci)).collect())).collect();
           if *nr != rows.len() || *cols != want { v.fail(format!("C18|select-{}-wrong", form), format!("`{}` gave {} expected rows {:?} in order", text, out.show(), rows.iter().map(|r| r + 1).collect::<Vec<_>>())); }
@@ -160,7 +383,7 @@ fn check(c: &Case) -> Verdict {
           if val.elems() != want { v.fail("C18|select-column-wrong", format!("`{}` gave {} expected {:?}", text, val.show(), want.iter().map(|x| x.show()).collect::<Vec<_>>())); }
         }
         (Outcome::Ok(other), _) => { if !(rows.is_empty() && !matches!(sel, Sel::Col(_))) { v.fail(format!("C18|select-{}-wrong-shape", form), format!("`{}` gave {}", text, other.show())); } }
-        (other, _) => { if rows.is_empty() && !matches!(sel, Sel::Col(_)) { v.label("empty-selection"); } else if matches!(sel, Sel::Mask(m) if m.len() == 1) { v.fail(format!("C18|single-element-index-rejected|{}", form), format!("`{}` gave {}", text, other.show())); } else { v.fail(format!("C18|select-{}-rejected|{}", form, other.class()), format!("`{}` gave {}", text, other.show())); } }
+        (other, _) => { if rows.is_empty() && !matches!(sel, Sel::Col(_)) { v.label("empty-selection"); } else if matches!(sel, Sel::Mask(m) | Sel::MaskVar(m) if m.len() == 1) || (rows.len() == 1 && matches!(sel, Sel::Range(..))) { v.fail(format!("C18|single-element-index-rejected|{}", form), format!("`{}` gave {}", text, other.show())); } else { v.fail(format!("C18|select-{}-rejected|{}", form, other.class()), format!("`{}` gave {}", text, other.show())); } }
       }
     }
     Case::Join { a, b, op, word } => {
@@ -240,6 +463,7 @@ fn check(c: &Case) -> Verdict {
         other => v.fail(format!("C18|join-rejected|{:?}|{}|{}", op, cause, other.class()), format!("`{}` gave {}", text, other.show())),
       }
     }
+    _ => unreachable!(),
   }
   v
 }
